@@ -252,7 +252,6 @@ package revocation
 // transaction persisted; a transaction that lost a race (duplicate key) is retried, any other error fails.
 //@ func (*StatusList2021).Entry
 //@   prop C11
-//@   loop 1 invariant true
 //@   ensures [entry-names-the-persisted-slot] isNilIface(result.1) ==> result.0 != nil && purpose == StatusPurposeRevocation
 //@        && isNilIface(ret(call (*gorm.DB).Transaction #1))
 //@        && result.0.StatusListIndex == ret(call strconv.Itoa #1) && arg(call strconv.Itoa #1, 0) == credentialIssuer.LastIssuedIndex
